@@ -90,6 +90,10 @@ fn main() {
         }
         ("C02", None) => checks::c02::run(&ctx),
         ("C02", Some(r)) => checks::c02::replay(&ctx, &r["case"]),
+        ("C02BDBG", _) => {
+            checks::c02b::debug(&args);
+            std::process::exit(0);
+        }
         ("C02DBG", _) => {
             checks::c02::debug(&args);
             std::process::exit(0);
